@@ -24,7 +24,10 @@ EXPLANATION = (
     'cursor typestate shows no read or advance past the terminator of the input or of the format '
     'in parse() and its helpers. C09-ovf: the digit accumulation of ParseInt<T> is guarded before '
     'each multiply/subtract, negation only happens when representable, and the year arithmetic of '
-    'the week conversion and of tm_year is guarded. C09-nul: digit lookups exclude the NUL. Does '
+    'the week conversion and of tm_year is guarded. C09-nul: digit lookups exclude the NUL. C09-flags '
+    '(sibling agreement): the conversion sites of parse() that fill one and the same out-variable raise '
+    'the same flags afterwards within the iteration (a site that stores a UTC offset without raising '
+    'saw_offset as its siblings do makes the fields be read in the wrong zone). Does '
     'not decide that the instant returned is the one denoted, nor strptime.')
 LEVEL = ('Abstract-interpretation and dominance proof of the accept/reject bounds, of the presence of the mandatory '
          'checks on every accepting path and of cursor safety, for all (format, input) pairs.')
